@@ -13,6 +13,14 @@
 // interpreter of the AST written from the property text; it never looks at
 // the Coq model.
 //
+// Conditions are built with the public constructors wherever there is one:
+// a negation is commonconds.Not(...) applied to the built sub-condition (so n
+// stacked negations are n nested wrappers), "TPM initialised" is
+// tpmconds.TPMIsInited{}; only the leaves no package offers (actor is ...,
+// measured ..., constant, panicking) are harness-defined.  A flow may contain
+// HOLES: nil entries of types.Steps (gTop.S == nil) and nil pointers of the
+// harness' step type, at any position.
+//
 // Memory layout.  The action list of a static (or harness-defined custom) step
 // is a Go slice, and StaticStep.Actions() hands out that very slice.  Every
 // case therefore comes with a layout (gCase.Arrays + Arr/Off/Cap of the
@@ -42,6 +50,8 @@ import (
 	"github.com/9elements/converged-security-suite/v2/pkg/bootflow/actions/commonactions"
 	"github.com/9elements/converged-security-suite/v2/pkg/bootflow/actions/tpmactions"
 	"github.com/9elements/converged-security-suite/v2/pkg/bootflow/bootengine"
+	"github.com/9elements/converged-security-suite/v2/pkg/bootflow/conditions/commonconds"
+	"github.com/9elements/converged-security-suite/v2/pkg/bootflow/conditions/tpmconds"
 	"github.com/9elements/converged-security-suite/v2/pkg/bootflow/steps/commonsteps"
 	"github.com/9elements/converged-security-suite/v2/pkg/bootflow/steps/tpmsteps"
 	"github.com/9elements/converged-security-suite/v2/pkg/bootflow/subsystems/trustchains/tpm"
@@ -109,6 +119,7 @@ const (
 	cNot         = 4
 	cPanic       = 5
 	cMeasuredHas = 6 // some entry of State.MeasuredData comes from data source N
+	cNil         = 7 // a nil types.Condition: calling Check panics
 )
 
 type gCond struct {
@@ -128,13 +139,14 @@ const (
 	sPanic       = 5
 	sInitTPM     = 6
 	sCustom      = 7
-	sMeasure     = 8 // tpmsteps.Measure: a StaticStep with one TPMEvent
-	sSetFlowFunc = 9 // commonsteps.SetFlowFromFunc
+	sMeasure     = 8  // tpmsteps.Measure: a StaticStep with one TPMEvent
+	sSetFlowFunc = 9  // commonsteps.SetFlowFromFunc
+	sLogInit     = 10 // tpmsteps.LogInit as a step of its own
 )
 
 type gStep struct {
 	K       int      `json:"k"`
-	Nil     bool     `json:"nil,omitempty"` // StaticStep(nil) / MergeSteps(nil)
+	Nil     bool     `json:"nil,omitempty"` // StaticStep(nil) / MergeSteps(nil) / sCustom: a nil *hStep
 	Acts    []gAct   `json:"acts,omitempty"`
 	Cond    *gCond   `json:"cond,omitempty"`
 	Then    *gStep   `json:"then,omitempty"`
@@ -158,12 +170,39 @@ type gStep struct {
 
 // hasList: the step owns an action list in memory
 func (s *gStep) hasList() bool {
-	return (s.K == sStatic && !s.Nil) || s.K == sCustom || s.K == sMeasure
+	return (s.K == sStatic && !s.Nil) || (s.K == sCustom && !s.Nil) || s.K == sMeasure
+}
+
+// sids of the step values that exist once: every nil StaticStep is the same Go
+// value, and so on
+const (
+	sidNilStatic = 1
+	sidNilMerge  = 2
+	sidHole      = 3 // nil types.Step
+	sidNilCustom = 4 // (*hStep)(nil)
+	sidLogInit   = 5 // .. 9: tpmsteps.LogInit(locality 0..4)
+)
+
+// fixedSid: the sid of a step value that exists once (0: an ordinary step)
+func fixedSid(s *gStep) int {
+	switch {
+	case s == nil:
+		return sidHole
+	case s.Nil && s.K == sStatic:
+		return sidNilStatic
+	case s.Nil && s.K == sMerge:
+		return sidNilMerge
+	case s.Nil && s.K == sCustom:
+		return sidNilCustom
+	case s.K == sLogInit:
+		return sidLogInit + s.ID%5 // LogInitStruct{Locality} is a comparable value
+	}
+	return 0
 }
 
 type gTop struct {
 	Sid int    `json:"sid"`
-	S   *gStep `json:"s"`
+	S   *gStep `json:"s"` // nil: a hole, Steps[i] == nil
 }
 
 type gFlow struct {
@@ -266,9 +305,24 @@ func (s *hStep) Actions(context.Context, *types.State) types.Actions {
 	return s.Acts
 }
 
+// hCond: the leaf conditions no package of the repository offers
 type hCond struct {
 	c      *gCond
 	actors map[int]*hActor
+}
+
+// cond builds the condition with the public constructors: commonconds.Not
+// around the built sub-condition, tpmconds.TPMIsInited, harness leaves.
+func (b *built) cond(g *gCond) types.Condition {
+	switch g.K {
+	case cNil:
+		return nil
+	case cNot:
+		return commonconds.Not(b.cond(g.Sub))
+	case cTPMInited:
+		return tpmconds.TPMIsInited{}
+	}
+	return hCond{c: g, actors: b.actors}
 }
 
 func (c hCond) Check(ctx context.Context, s *types.State) bool { return c.eval(c.c, s) }
@@ -333,7 +387,7 @@ func (b *built) chooser(id int, fn *gFun) func(*types.State) types.Flow {
 		case fFlow:
 			return b.flow(fn.Flow)
 		case fIf:
-			if (hCond{c: fn.Cond, actors: b.actors}).Check(context.Background(), s) {
+			if b.cond(fn.Cond).Check(context.Background(), s) {
 				return eval(fn.T, s)
 			}
 			return eval(fn.E, s)
@@ -451,7 +505,7 @@ func (b *built) step(s *gStep) types.Step {
 		}
 		return types.StaticStep(b.window(s))
 	case sIf:
-		return commonsteps.If(hCond{c: s.Cond, actors: b.actors}, b.step(s.Then), b.step(s.Else))
+		return commonsteps.If(b.cond(s.Cond), b.step(s.Then), b.step(s.Else))
 	case sMerge:
 		if s.Nil {
 			return commonsteps.MergeSteps(nil)
@@ -470,7 +524,12 @@ func (b *built) step(s *gStep) types.Step {
 	case sInitTPM:
 		return tpmsteps.InitTPM(uint8(s.ID%5), s.WithLog)
 	case sCustom:
+		if s.Nil {
+			return (*hStep)(nil)
+		}
 		return &hStep{ID: s.ID, Panics: s.Panics, Acts: b.window(s)}
+	case sLogInit:
+		return tpmsteps.LogInit(uint8(s.ID % 5))
 	case sMeasure:
 		// the literal made by the real constructor is the step's array
 		if st, ok := b.measured[s]; ok {
@@ -600,6 +659,8 @@ func sameStep(a, b types.Step) bool {
 		return va.Pointer() == vb.Pointer() && va.Len() == vb.Len()
 	case reflect.String:
 		return va.String() == vb.String()
+	case reflect.Struct:
+		return va.Type().Comparable() && a == b
 	}
 	return false
 }
@@ -991,7 +1052,7 @@ func galCond(c *gCond) string {
 	case cMeasuredHas:
 		return "CMeasuredHas " + gal.Z(int64(c.N))
 	}
-	return "CPanic"
+	return "CPanic" // cPanic, and cNil: Check on a nil Condition panics
 }
 
 func galOptStep(s *gStep) string {
@@ -1007,6 +1068,9 @@ func galSlice(s *gStep) string {
 }
 
 func galStep(s *gStep) string {
+	if s == nil {
+		return "HNil"
+	}
 	switch s.K {
 	case sStatic, sMeasure:
 		if s.Nil {
@@ -1029,7 +1093,12 @@ func galStep(s *gStep) string {
 		return "HPanic"
 	case sInitTPM:
 		return "HInitTPM " + gal.Bool(s.WithLog)
+	case sLogInit:
+		return "HLogInit"
 	case sCustom:
+		if s.Nil {
+			return "HNil"
+		}
 		return "HCustom " + gal.Z(int64(s.ID)) + " " + gal.Bool(s.Panics) + " " + galSlice(s)
 	case sSetFlowFunc:
 		return "HSetFlowFunc " + gal.Z(int64(s.ID)) + " (" + galFun(s.Fn) + ")"
@@ -1192,9 +1261,15 @@ func (o *oracle) want(s *gStep) []gAct {
 			}
 		}
 		return r
+	case sLogInit:
+		la := gAct{K: aLogAdd, Flow: -1, Actor: -1, Meas: -1}
+		if o.tpm < 0 {
+			return []gAct{{K: aPanic, Flow: -1, Actor: -1, Meas: -1}}
+		}
+		return []gAct{la, la}
 	case sCustom:
-		if s.Panics {
-			panic(stepPanic{})
+		if s.Panics || s.Nil {
+			panic(stepPanic{}) // a nil pointer step: its Actions cannot run
 		}
 		return s.Acts
 	case sSetFlowFunc:
@@ -1552,7 +1627,7 @@ func (g *gen) sensitiveFun(c *gCond) *gFun {
 	f := &gFun{K: fIf, Cond: c, T: &gFun{K: fFlow, Flow: x}, E: &gFun{K: fFlow, Flow: y}}
 	switch r := g.rn(100); {
 	case r < 25:
-		f.Cond = &gCond{K: cNot, Sub: c}
+		f.Cond = nots(c, 1+g.rn(4))
 	case r < 35:
 		f.E = &gFun{K: fPanic}
 	case r < 45:
@@ -1699,7 +1774,25 @@ func (g *gen) acts(max, switchPct int) []gAct {
 	return r
 }
 
+// nots: n times commonconds.Not around c
+func nots(c *gCond, n int) *gCond {
+	for ; n > 0; n-- {
+		c = &gCond{K: cNot, Sub: c}
+	}
+	return c
+}
+
+// cond: a random condition; every eighth one is wrapped in 1..5 stacked
+// negations (on top of the negations cond1 nests by itself).
 func (g *gen) cond(depth int) *gCond {
+	c := g.cond1(depth)
+	if g.p(12) {
+		c = nots(c, 1+g.rn(5))
+	}
+	return c
+}
+
+func (g *gen) cond1(depth int) *gCond {
 	switch r := g.rn(100); {
 	case r < 35:
 		return &gCond{K: cConst, B: g.p(50)}
@@ -1712,9 +1805,11 @@ func (g *gen) cond(depth int) *gCond {
 	case r < 82:
 		return &gCond{K: cTPMInited}
 	case r < 94 && depth > 0:
-		return &gCond{K: cNot, Sub: g.cond(depth - 1)}
+		return &gCond{K: cNot, Sub: g.cond1(depth - 1)}
 	case r < 97:
 		return &gCond{K: cPanic}
+	case r < 98:
+		return &gCond{K: cNil}
 	}
 	return &gCond{K: cConst, B: true}
 }
@@ -1766,6 +1861,9 @@ func (g *gen) step(depth, switchPct int) *gStep {
 	case r < 80:
 		return &gStep{K: sPanic, ID: g.id()}
 	case r < 86:
+		if g.p(20) {
+			return &gStep{K: sLogInit, ID: g.rn(5)}
+		}
 		return &gStep{K: sInitTPM, WithLog: g.p(50), ID: g.rn(5)}
 	case r < 92:
 		a := gAct{K: aMeasure, ID: g.id(), Flow: -1, Actor: -1, Meas: -1}
@@ -1774,6 +1872,9 @@ func (g *gen) step(depth, switchPct int) *gStep {
 		}
 		return &gStep{K: sMeasure, Acts: []gAct{a}}
 	default:
+		if g.p(4) {
+			return &gStep{K: sCustom, Nil: true} // a nil pointer of the harness' step type
+		}
 		return &gStep{K: sCustom, ID: g.id(), Panics: g.p(30), Acts: g.acts(3, switchPct)}
 	}
 }
@@ -1796,7 +1897,12 @@ func (g *gen) loop(gc *gCase, nf int) {
 	again := &gCond{K: cMeasuredLt, N: len(gc.Meas0) + rounds}
 	fn := &gFun{K: fIf, Cond: again, T: &gFun{K: fFlow, Flow: 0}, E: g.fun(1)}
 	if g.p(30) {
-		fn = &gFun{K: fIf, Cond: &gCond{K: cNot, Sub: again}, T: fn.E, E: fn.T}
+		// the same question asked through 1..4 negations
+		if n := 1 + g.rn(4); n%2 == 1 {
+			fn = &gFun{K: fIf, Cond: nots(again, n), T: fn.E, E: fn.T}
+		} else {
+			fn.Cond = nots(again, n)
+		}
 	}
 	fa := gAct{K: aSetFlowFunc, ID: g.id(), Fn: fn, Flow: -1, Actor: -1, Meas: -1}
 	switch r := g.rn(100); {
@@ -1812,16 +1918,18 @@ func (g *gen) loop(gc *gCase, nf int) {
 	if g.p(50) {
 		steps = append(steps, g.top(g.step(1, 0))) // reached only if the function panicked
 	}
+	if g.p(20) {
+		// a hole somewhere in the loop: passed on every round
+		k := g.rn(len(steps) + 1)
+		steps = append(steps[:k], append([]gTop{g.top(nil)}, steps[k:]...)...)
+	}
 	gc.Flows[0].Steps = steps
 }
 
 func (g *gen) top(s *gStep) gTop {
-	// all nil StaticSteps (MergeSteps) are one and the same Go value: they share a sid
-	if s.Nil && s.K == sStatic {
-		return gTop{Sid: 1, S: s}
-	}
-	if s.Nil && s.K == sMerge {
-		return gTop{Sid: 2, S: s}
+	// all nil StaticSteps (MergeSteps, holes ...) are one and the same Go value: they share a sid
+	if sid := fixedSid(s); sid != 0 {
+		return gTop{Sid: sid, S: s}
 	}
 	g.nextSid++
 	return gTop{Sid: 9 + g.nextSid, S: s}
@@ -1834,6 +1942,11 @@ func (g *gen) family(acyclic bool) *gCase {
 	g.coupledPct = 0
 	if g.p(50) {
 		g.coupledPct = 4 + g.rn(12)
+	}
+	// every fifth family has holes: 8-35% of its top-level steps are nil
+	holePct := 0
+	if g.p(20) {
+		holePct = 8 + g.rn(28)
 	}
 	nf := 1 + g.rn(6)
 	level := make([]int, nf)
@@ -1869,6 +1982,15 @@ func (g *gen) family(acyclic bool) *gCase {
 		}
 		f := gFlow{Name: i, Steps: make([]gTop, 0, n)}
 		for j := 0; j < n; j++ {
+			if g.p(holePct) {
+				// a hole in Steps (sometimes a nil pointer of a step type instead)
+				if g.p(80) {
+					f.Steps = append(f.Steps, g.top(nil))
+				} else {
+					f.Steps = append(f.Steps, g.top(&gStep{K: sCustom, Nil: true}))
+				}
+				continue
+			}
 			sp := switchPct
 			if j == 0 && g.p(25) {
 				sp = 70 // first step switches
@@ -2178,12 +2300,9 @@ func fixedCases() []*gCase {
 		for i := range gc.Flows {
 			for j := range gc.Flows[i].Steps {
 				s := gc.Flows[i].Steps[j].S
-				switch {
-				case s.Nil && s.K == sStatic:
-					gc.Flows[i].Steps[j].Sid = 1
-				case s.Nil && s.K == sMerge:
-					gc.Flows[i].Steps[j].Sid = 2
-				default:
+				if fs := fixedSid(s); fs != 0 {
+					gc.Flows[i].Steps[j].Sid = fs
+				} else {
 					gc.Flows[i].Steps[j].Sid = sid
 					sid++
 				}
@@ -2231,6 +2350,52 @@ func fixedCases() []*gCase {
 	mk("conditions see the state at the start of the step", 1,
 		fl(0, &gStep{K: sMerge, Subs: []*gStep{{K: sSetActor, Actor: 5}, {K: sIf, Cond: &gCond{K: cActorIs, Actor: 5}, Then: static(measA(1, 0)), Else: static(measA(2, 0))}}},
 			&gStep{K: sIf, Cond: &gCond{K: cActorIs, Actor: 5}, Then: static(measA(3, 0)), Else: static(measA(4, 0))}))
+	// holes: a nil entry of Steps is a step that cannot be asked for its
+	// actions; it is logged with that issue and the run goes on behind it
+	hole := (*gStep)(nil)
+	nilPtr := func() *gStep { return &gStep{K: sCustom, Nil: true} }
+	mk("a hole in the middle of a flow", 1, fl(0, static(measA(1, 0)), hole, static(measA(2, 0)), &gStep{K: sSetActor, Actor: 5}, static(measA(3, 0))))
+	mk("a hole as the very first step", 1, fl(0, hole, static(measA(1, 0)), &gStep{K: sSetFlow, Flow: 1}), fl(1, static(measA(2, 0))))
+	mk("a hole as the first step of the flow switched to", 1, fl(0, static(measA(1, 0)), &gStep{K: sSetFlow, Flow: 1}), fl(1, hole, &gStep{K: sSetActor, Actor: 5}, &gStep{K: sSetFlow, Flow: 2}), fl(2, hole, hole, static(measA(2, 0))))
+	mk("a hole as the last step", 1, fl(0, static(measA(1, 0)), hole))
+	mk("holes only", 1, fl(0, hole, hole, hole))
+	mk("holes and nil pointer steps with an actor whose code fails", 1, fl(0, &gStep{K: sSetActor, Actor: 7}, hole, nilPtr(), &gStep{K: sSetActor, Actor: 5}, hole, static(measA(1, 0))))
+	mk("nil pointer steps as step, as branch of a conditional and inside a merged step", 1,
+		fl(0, nilPtr(), &gStep{K: sIf, Cond: &gCond{K: cConst, B: true}, Then: nilPtr(), Else: static(measA(1, 0))},
+			merge(static(measA(2, 0)), nilPtr()), static(measA(3, 0))))
+	for k := 1; k <= 5; k++ {
+		gc := mk("holes, stepwise", 1, fl(0, hole, static(measA(1, 0)), hole, &gStep{K: sSetFlow, Flow: 1}), fl(1, hole, static(measA(2, 0))))
+		gc.Steps = k
+	}
+	hc := mk("a hole passed on every round of a cycle", 1, fl(0, static(customA(1, 2, -1, rOk)), hole, funcS(3, ifF(&gCond{K: cMeasuredLt, N: 3}, flowF(0), flowF(100)))))
+	hc.Steps = 12
+	// stacked negations: commonconds.Not around commonconds.Not ...
+	tpmInited := &gCond{K: cTPMInited}
+	for n := 0; n <= 5; n++ {
+		mk(fmt.Sprintf("a conditional on %d stacked negations of a constant, of the actor and of the TPM state", n), 0,
+			fl(0, &gStep{K: sIf, Cond: nots(&gCond{K: cConst, B: true}, n), Then: static(measA(1, 0)), Else: &gStep{K: sSetActor, Actor: 5}},
+				&gStep{K: sIf, Cond: nots(&gCond{K: cActorIs, Actor: 5}, n), Then: &gStep{K: sSetActor, Actor: 6}, Else: &gStep{K: sSetActor, Actor: 7}},
+				&gStep{K: sIf, Cond: nots(tpmInited, n), Then: static(measA(2, 0)), Else: &gStep{K: sInitTPM}},
+				&gStep{K: sIf, Cond: nots(tpmInited, n), Then: &gStep{K: sSetFlow, Flow: 1}, Else: &gStep{K: sSetFlow, Flow: 2}},
+				static(measA(3, 0))),
+			fl(1, static(measA(4, 0))), fl(2, static(measA(5, 0))))
+	}
+	mk("init the TPM unless it is (twice negated: if it is not not) initialised, as the AMD flows do", 0,
+		fl(0, &gStep{K: sIf, Cond: nots(tpmInited, 1), Then: &gStep{K: sInitTPM}},
+			&gStep{K: sIf, Cond: nots(tpmInited, 2), Else: &gStep{K: sInitTPM}},
+			&gStep{K: sMeasure, Acts: []gAct{measA(1, 0)}},
+			&gStep{K: sIf, Cond: nots(tpmInited, 2), Then: &gStep{K: sMeasure, Acts: []gAct{measA(2, 0)}}, Else: &gStep{K: sInitTPM}}))
+	mk("negations of a panicking and of a nil condition, a nil condition", 1,
+		fl(0, &gStep{K: sIf, Cond: nots(&gCond{K: cPanic}, 2), Then: static(measA(1, 0)), Else: static(measA(2, 0))},
+			&gStep{K: sIf, Cond: nots(&gCond{K: cNil}, 1), Then: static(measA(3, 0)), Else: static(measA(4, 0))},
+			&gStep{K: sIf, Cond: &gCond{K: cNil}, Then: static(measA(5, 0)), Else: static(measA(6, 0))},
+			static(measA(7, 0))))
+	mk("a flow function asking through stacked negations", 1,
+		fl(0, &gStep{K: sSetActor, Actor: 5}, funcS(1, ifF(nots(&gCond{K: cActorIs, Actor: 5}, 2), flowF(1), flowF(2))), static(measA(1, 0))),
+		fl(1, static(funcA(2, ifF(nots(&gCond{K: cMeasuredLt, N: 1}, 3), flowF(100), flowF(2))), measA(2, 0))),
+		fl(2, static(measA(3, 0))))
+	mk("LogInit as a step of its own, with and without a TPM behind it", 0, fl(0, &gStep{K: sLogInit, ID: 0}, &gStep{K: sInitTPM}, &gStep{K: sLogInit, ID: 3}, &gStep{K: sLogInit, ID: 0}, static(measA(1, 0))))
+	mk("LogInit without a TPM", -1, fl(0, &gStep{K: sLogInit, ID: 1}, static(measA(1, 0))))
 	// function-based set-flow: the function is asked when the action is applied
 	actorIs := func(a int) *gCond { return &gCond{K: cActorIs, Actor: a} }
 	three := func() []gFlow {
@@ -2357,6 +2522,53 @@ func stats(c *gal.Ctx, gc *gCase, o obsResult) {
 	}
 	if len(o.Measured) > len(gc.Meas0) {
 		c.Count("runs with measurements")
+	}
+	holes, deep := 0, 0
+	for _, e := range o.Log {
+		if e.Sid == sidHole || e.Sid == sidNilCustom {
+			holes++
+		}
+	}
+	if holes > 0 {
+		c.Count("runs executing a hole (nil step)")
+		if last := o.Log[len(o.Log)-1]; len(o.Log) > holes && !(last.Sid == sidHole || last.Sid == sidNilCustom) {
+			c.Count("runs executing a hole and an ordinary step after it")
+		}
+	}
+	executed := map[int]bool{}
+	for _, e := range o.Log {
+		executed[e.Sid] = true
+	}
+	var depthOf func(c *gCond) int
+	depthOf = func(c *gCond) int {
+		if c == nil || c.K != cNot {
+			return 0
+		}
+		return 1 + depthOf(c.Sub)
+	}
+	var walk func(s *gStep)
+	walk = func(s *gStep) {
+		if s == nil {
+			return
+		}
+		if s.K == sIf && depthOf(s.Cond) >= 2 {
+			deep++
+		}
+		walk(s.Then)
+		walk(s.Else)
+		for _, x := range s.Subs {
+			walk(x)
+		}
+	}
+	for _, f := range gc.Flows {
+		for _, ts := range f.Steps {
+			if executed[ts.Sid] {
+				walk(ts.S)
+			}
+		}
+	}
+	if deep > 0 {
+		c.Count("runs executing a conditional on two or more stacked negations")
 	}
 	for _, e := range o.Log {
 		for _, a := range e.Actions {
@@ -2489,6 +2701,8 @@ func main() {
 
 	c.Finish("random acyclic families (<=6 flows in 4 levels, <=8 steps per flow, nesting <=2 of If/Merge, nil and empty flows, nil steps, " +
 		"switching first steps, failing/panicking steps, actions, conditions and data sources, actor changes, TPM present/absent/initialised, " +
+		"conditions built with commonconds.Not (one wrapper per negation, every eighth condition under 1-5 stacked negations) and tpmconds.TPMIsInited around harness-defined leaves, nil conditions, " +
+		"holes (nil entries of Steps, nil pointer steps; every fifth family has 8-35% of them, at any position), tpmsteps.LogInit on its own, " +
 		"static and function-based set-flow steps/actions incl. functions placed after an action of the same step that changes what they look at, panicking functions) run with Finish; " +
 		"every fifth family is cyclic and run with a bounded number of NextStep calls; fixed edge cases; " +
 		"every family has a memory layout: the action lists of static/custom steps are windows of action arrays of the definition (15% private exact, 15% private with spare capacity, " +
